@@ -234,7 +234,12 @@ def rand_tree(rnd, in_types, maxdepth):
                 alts = [(format(kk, f'0{tx[1]}b'), ee) for kk, ee in alts]
             e = ('selw', x, alts, d)
         elif form == 'anyall':
-            e = (rnd.choice(['any', 'all']), [x, y])
+            xs = [x, y] if rnd.random() < 0.5 else [x]
+            if rnd.random() < 0.5:
+                # compile-time constants anywhere in the iterable (any: a True decides, all: a False decides -- wherever it stands)
+                for _c in range(rnd.randint(1, 3)):
+                    xs.insert(rnd.randrange(len(xs) + 1), ('pyb', rnd.random() < 0.5))
+            e = (rnd.choice(['any', 'all']), xs)
         elif form == 'intop' and tx[0] in ('u', 's'):
             i = rnd.choice(int_operands(tx))
             if rnd.random() < 0.5:
